@@ -292,13 +292,17 @@ var (
 func FreePort() int {
 	portMu.Lock()
 	defer portMu.Unlock()
+	// the ports handed out stay BELOW the kernel's ephemeral range (32768..60999): the listeners of the fake hosts, IdP
+	// and KDCs get their ports from that range (":0"), and one of them taking the port between this probe and the
+	// gateway's own bind made the gateway exit with "address already in use" after the harness had seen "something
+	// listens there" (rare "connection refused" for every script of one instance)
 	if portNext == 0 {
-		portNext = 20000 + (os.Getpid()*7919+int(time.Now().UnixNano()%9973))%30000
+		portNext = 12000 + (os.Getpid()*7919+int(time.Now().UnixNano()%9973))%20000
 	}
 	for i := 0; i < 5000; i++ {
 		portNext++
-		if portNext > 60000 {
-			portNext = 20000
+		if portNext > 32000 {
+			portNext = 12000
 		}
 		l, err := net.Listen("tcp", fmt.Sprintf(":%d", portNext))
 		if err != nil {
